@@ -228,7 +228,7 @@ func runRga(cfg *config) error {
 			hi = len(cases)
 		}
 		f := filepath.Join(cfg.out, fmt.Sprintf("cases_rga_%d.v", k))
-		src := coqfmt.File([]string{"From YV Require Import Corr.RGA."}, "rgacase", "mismatches rgacheck", cases[k*shard:hi])
+		src := coqfmt.File([]string{"From YV Require Import Corr.RGA2."}, "rgacase", "mismatches rgacheck_both", cases[k*shard:hi])
 		if err := os.WriteFile(f, []byte(src), 0o644); err != nil {
 			return err
 		}
